@@ -162,7 +162,7 @@ func cmdCheck(args []string) int {
 				b["log"], b["entries"], b["chunk"] = 1, 1, 1
 			}
 		}
-		res := Explore(w, h.Name, b, *workers, *solver)
+		res := Explore(w, h.Name, b, *workers, *solver, prop)
 		results = append(results, res)
 		if *verbose {
 			printResult(res, true)
@@ -214,7 +214,7 @@ func cmdCheck(args []string) int {
 				path := filepath.Join(sdir, fmt.Sprintf("%s-%d.json", r.Harness, i))
 				j, _ := json.MarshalIndent(map[string]any{"harness": r.Harness, "bounds": r.Bounds, "model": s["witness"], "image": s["image"], "label": "selftest", "kind": "PASS"}, "", " ")
 				os.WriteFile(path, j, 0o644)
-				ok, out := rpShared.ReplayPass(path)
+				ok, out := rpShared.ReplayPass(path, prop)
 				selfTested++
 				if !ok {
 					selfFailed++
@@ -555,7 +555,7 @@ func (rp *replayer) Replay(path string, f *Failure) (bool, string) {
 
 // ReplayPass runs a witness of a passing path natively: it must finish without any failed assertion,
 // violated assumption or panic.
-func (rp *replayer) ReplayPass(path string) (bool, string) {
+func (rp *replayer) ReplayPass(path string, prop string) (bool, string) {
 	ctx, cancel := context.WithTimeout(context.Background(), 60*time.Second)
 	defer cancel()
 	cmd := exec.CommandContext(ctx, rp.bin, "-test.run", "^TestVerifReplay$", "-test.v", "-test.timeout", "50s")
@@ -566,7 +566,15 @@ func (rp *replayer) ReplayPass(path string) (bool, string) {
 	cmd.Stderr = &buf
 	cmd.Run()
 	out := buf.String()
-	ok := strings.Contains(out, "VERIF-REPLAY-END") && !strings.Contains(out, "VERIF-ASSERT-FAIL") &&
+	// failed obligations of other properties are not assumed away on a passing path of this property's
+	// run (see checkOne), so only this property's labels count here
+	assertFail := false
+	for _, line := range strings.Split(out, "\n") {
+		if strings.HasPrefix(line, "VERIF-ASSERT-FAIL ") && labelHas(strings.TrimPrefix(line, "VERIF-ASSERT-FAIL "), prop) {
+			assertFail = true
+		}
+	}
+	ok := strings.Contains(out, "VERIF-REPLAY-END") && !assertFail &&
 		!strings.Contains(out, "VERIF-ASSUME-FALSE") && !strings.Contains(out, "VERIF-PANIC") && !strings.Contains(out, "FATAL: ")
 	return ok, out
 }
